@@ -119,6 +119,8 @@ private:
         lib::BuildFields fields;
         bool hasFields{false};
         size_t prevLen{0};
+        bool fromWire{false};
+        Bytes wireHeader;  // from-wire objects: the header bytes they were born with (length / DLC bytes zeroed)
     };
     std::map<int, BuilderSlot> builders;
 
